@@ -55,6 +55,7 @@ func runC14(r *Report, tier string) {
 	r.rule("R14.2", "one curve table: NewKeyEC2 (alg -> curve), the derivation (curve -> alg), algorithmFromEllipticCurve (Go curve -> alg), curveSize (curve -> Go curve), PublicKey and PrivateKey (alg -> Go curve) are restrictions of one bijection P-256 <-> ES256 <-> elliptic.P256, P-384 <-> ES384 <-> P384, P-521 <-> ES512 <-> P521; curveSize is (BitSize(that curve)+7)/8.")
 	r.rule("R14.3", "padding on encode: Key.MarshalCBOR replaces x (and, by an isomorphic arm, y) by make(size-len(v), size) ++ v exactly under kty == EC2, size > 0 and 0 < len(v) < size, with size = curveSize(the key's own curve) and v the coordinate stored under that same label.")
 	r.rule("R14.4", "relaxed length guard: wherever the key decoder / consistency check compares an EC2 coordinate's length with the curve size, it refuses only len > size (never != or <), so keys with trimmed leading zeros stay acceptable.")
+	r.rule("R14.7", "converting a COSE_Key back to a Go key refuses only what the consistency check or the algorithm derivation refuse, an EC2 private key without x or y (compressed point), and unsupported algorithms; no representation-dependent test (e.g. on padded coordinates) stands between a parsed key and its Go form.")
 	r.rule("R14.6", "the key decoder's result depends on the input only: on every non-failure exit every field of the receiver has been assigned (a reset followed by assignments, or unconditional assignments); nothing of a previously parsed key survives.")
 	r.rule("R14.5", "same algorithm both ways: Key.Signer and Key.Verifier hand AlgorithmOrDefault(k) and the result of PrivateKey()/PublicKey() to NewSigner/NewVerifier (R15.3).")
 	r.assumes("big.Int SetBytes/Bytes/FillBytes arithmetic; equality of the reconstructed key is a runtime fact")
@@ -270,6 +271,52 @@ func runC14(r *Report, tier string) {
 			ok = c != nil && c.S == pr.ctor && c.Args[0].String() == "res<0>(call<"+shortFn(aod)+">($0))" && strings.Contains(c.Args[1].String(), "res<0>(call<(*Key)."+pr.conv+">($0))")
 		}
 		r.ob("R14.5", "Key."+pr.name+":same-algorithm", fn, nil, "object is built for AlgorithmOrDefault(k) and the converted key").check(ok, pr.ctor+"(AlgorithmOrDefault(k), "+pr.conv+"(k))", "Key."+pr.name+" does not end in "+pr.ctor+"(AlgorithmOrDefault(k), "+pr.conv+"(k))")
+	}
+
+	// R14.7: converting back refuses nothing beyond the documented cases
+	for _, name := range []string{"PublicKey", "PrivateKey"} {
+		fn := P.methodOf(keyT, name)
+		nf := 0
+		for _, p := range P.allPaths(fn) {
+			if !p.feasible() {
+				continue
+			}
+			res := p.results()
+			fs := factSet{}
+			for _, c := range p.conds {
+				fs.add(c)
+			}
+			if k, _ := P.classifyErr(res[1], fs); k != exitFailure {
+				continue
+			}
+			nf++
+			et := P.expandErr(res[1], 0)
+			why := ""
+			switch c := delegCall(res[1]); {
+			case c != nil && (P.calleeOfTerm(c) == P.keyValidate() || P.calleeOfTerm(c) == P.keyDerive()):
+				// the consistency check's / the derivation's own verdict
+			case strings.Contains(et.String(), "*@ErrAlgorithmNotSupported"):
+				for _, cd := range p.conds {
+					if cd.Val && cd.Pred.Op == "binop" && cd.Pred.S == "==" && cd.Pred.Args[0].Op == "const" && strings.HasPrefix(cd.Pred.Args[1].String(), "res<0>(call<"+shortFn(P.keyDerive())+">") {
+						why = "ErrAlgorithmNotSupported is returned on the arm of a supported algorithm (" + cd.Pred.String() + ")"
+					}
+				}
+			case strings.Contains(et.String(), "*@ErrInvalidPrivKey") && name == "PrivateKey":
+				okc := false
+				for _, cd := range p.conds {
+					if cd.Val && cd.Pred.Op == "binop" && cd.Pred.S == "==" && cd.Pred.Args[0].String() == "0" && cd.Pred.Args[1].Op == "len" && strings.Contains(cd.Pred.Args[1].String(), ").EC2>") {
+						okc = true
+					}
+				}
+				if !okc {
+					why = "ErrInvalidPrivKey is returned although x and y are both present: a refusal the round trip does not allow for (" + truncate(et.String(), 120) + ")"
+				}
+			default:
+				why = "an additional refusal: " + truncate(et.String(), 160)
+			}
+			r.ob("R14.7", fmt.Sprintf("Key.%s:refusal:%s", name, pathID(p)), fn, p.ret, "a key that passed the consistency check is refused only for a missing coordinate (compressed point) or an unsupported algorithm").check(why == "", truncate(et.String(), 80), why)
+		}
+		r.floor("R14.7", nf, 3, "failure paths of Key."+name)
 	}
 
 	// R14.6: the parsed key is a function of the bytes: at every non-failure
